@@ -35,6 +35,7 @@ def generate(seed, tier="quick"):
     rnd.shuffle(prog["ops"])
     for i, op in enumerate(prog["ops"]):
         op["id"] = i
+    sampling.rebind_faults(prog)
     return prog
 
 
@@ -125,6 +126,8 @@ def evaluate(dep, program):
             v += judge_logprobs(dep, rec, info, L, probes, "iterative")
         else:
             continue
+        if sampling.failed_as_injected(rec):
+            probes["failed_op_in_history(injected pool fault, raised)"] = probes.get("failed_op_in_history(injected pool fault, raised)", 0) + 1
         for kk in ("judged_ops", "randomized_order", "truncated_by_max_posterior_samples", "path:file", "path:cache", "path:in_memory"):
             if kk in scratch:
                 probes[kk] = probes.get(kk, 0) + scratch[kk]
